@@ -184,8 +184,19 @@ def gen_c14_lattice(rnd, tier):
         vpos, faces = _lattice_scene(rnd)
         out.append({'op': 'reset'})
         out.append(_root(rnd, 'lattice', vpos, faces, rnd.choice((0, -10, -3, 4, 7))))
+        prev = None
         for _s in range(rnd.randint(1, 5)):
-            out.append(_step(rnd, _lattice_crit(rnd)))
+            crit = _lattice_crit(rnd)
+            if prev is not None and prev['kind'] == 'near' and rnd.random() < 0.4:
+                # the same reference object and distance again, only the planar / angle tolerances differ
+                crit = dict(prev)
+                crit['hpt'] = rnd.random() < 0.7
+                crit['pt2'] = rnd.randint(0, 8) if crit['hpt'] else 0
+                if rnd.random() < 0.3:
+                    crit['had'] = not prev['had']
+                    crit['adeg'] = rnd.choice(DEGS) if crit['had'] else 0
+            out.append(_step(rnd, crit))
+            prev = crit
     return out
 
 
